@@ -45,9 +45,10 @@ type Call struct {
 }
 
 type Prog struct {
-	Fns   []Fn   `json:"fns"`
-	Calls []Call `json:"calls"`
-	Depth int    `json:"depth"` // recursion depth exercised
+	Fns    []Fn   `json:"fns"`
+	Calls  []Call `json:"calls"`
+	Depth  int    `json:"depth"`  // recursion depth exercised
+	Locals int    `json:"locals"` // extra locals per frame of the constant-passing recursion
 }
 
 // value returns a Go expression of the given type. untyped constants and nil are used where Go converts them.
@@ -254,7 +255,8 @@ func genProg(rt *rapid.T) *Prog {
 		}
 		p.Calls = append(p.Calls, c)
 	}
-	p.Depth = rx.Pick(rt, "depth", 1, 2, 10, 100, 1000, 5000)
+	p.Depth = rx.Pick(rt, "depth", 1, 2, 10, 50, 100, 200, 400, 1000, 5000)
+	p.Locals = rx.Range(rt, "locals", 0, 7)
 	return p
 }
 
@@ -293,6 +295,16 @@ func (p *Prog) Source() string {
 	sb.WriteString("func apply1(f func(int) int, a int) int {\n\treturn f(a)\n}\n\n")
 	sb.WriteString("func rec(n int, acc int) int {\n\ta := n * 2\n\tb := acc + 1\n\tif n == 0 {\n\t\treturn acc\n\t}\n\tr := rec(n-1, acc+n%7)\n\treturn r + a - a + b - b\n}\n\n")
 	sb.WriteString("func even(n int) bool {\n\tif n == 0 {\n\t\treturn true\n\t}\n\treturn odd(n - 1)\n}\n\nfunc odd(n int) bool {\n\tif n == 0 {\n\t\treturn false\n\t}\n\treturn even(n - 1)\n}\n\n")
+	// a recursion whose every call passes an untyped constant and nil for typed parameters, with a varying frame size
+	sb.WriteString("func half(n int, x float64, s []int, t uint8) float64 {\n")
+	for i := 0; i < p.Locals; i++ {
+		fmt.Fprintf(&sb, "\tl%d := n + %d\n", i, i)
+	}
+	sb.WriteString("\tt += 200\n\tif n == 0 {\n\t\treturn x/2 + float64(t)\n\t}\n\tr := half(n-1, 1, nil, 100) + x/2 + float64(len(s)) + float64(t)\n")
+	for i := 0; i < p.Locals; i++ {
+		fmt.Fprintf(&sb, "\tr += float64(l%d - n - %d)\n", i, i)
+	}
+	sb.WriteString("\treturn r\n}\n\n")
 	for _, f := range p.Fns {
 		sb.WriteString(f.decl())
 	}
@@ -377,6 +389,7 @@ func (p *Prog) Source() string {
 		}
 	}
 	fmt.Fprintf(&sb, "\tfmt.Println(rec(%d, 0), even(%d), odd(%d))\n", p.Depth, p.Depth%2000, p.Depth%2000)
+	fmt.Fprintf(&sb, "\tfmt.Println(half(%d, 3, nil, 7))\n", p.Depth%1500)
 	sb.WriteString("\tfmt.Println(vt.V, len(vs), vm[\"k\"])\n}\n")
 	return sb.String()
 }
